@@ -328,6 +328,12 @@ static bool g_raw = false;
 static std::atomic<int> g_cs_owner{-1};
 static std::vector<std::string> g_raw_lines;
 static std::mutex g_raw_mu;
+// an inline (pointer-sized) value comes back from get/scan as the "pointer" itself
+static std::string inline_str(const void* p) {
+    char buf[24];
+    std::snprintf(buf, sizeof buf, "i%016llx", static_cast<unsigned long long>(reinterpret_cast<std::uintptr_t>(p)));
+    return buf;
+}
 static std::string g_storage;
 static std::vector<std::vector<std::string>> g_pre;
 static std::vector<std::vector<Op>> g_threads;
@@ -431,7 +437,7 @@ static void worker(int tid, std::vector<Rec>* recs, std::vector<NvRec>* nvs, Tok
             for (auto& e : tl) {
                 o << " " << hex(std::get<0>(e)) << "=";
                 if (std::get<1>(e) == nullptr) o << "NULLVALUE";
-                else if (!vh::ptr_is_heap(std::get<1>(e))) o << "inline";
+                else if (!vh::ptr_is_heap(std::get<1>(e))) o << inline_str(std::get<1>(e));
                 else {
                     o << hex(std::string_view(std::get<1>(e), std::get<2>(e)));
                     held.push_back({std::get<1>(e), std::get<2>(e), vh::fnv(std::get<1>(e), std::get<2>(e))});
@@ -514,8 +520,9 @@ static void worker(int tid, std::vector<Rec>* recs, std::vector<NvRec>* nvs, Tok
                 yakushima::verif::hook_slot() = nullptr;
                 bool run = ti->get_running();
                 auto be = ti->get_begin_epoch();
+                auto ep = epoch_management::get_epoch();
                 yakushima::verif::hook_slot() = saved;
-                o << "probe running " << (run ? 1 : 0) << " begin " << be;
+                o << "probe running " << (run ? 1 : 0) << " begin " << be << " epoch " << ep;
             }
         } else if (op == "hold") {
             // re-read everything handed out so far in this session: contents must be unchanged
@@ -674,7 +681,7 @@ int main(int argc, char** argv) {
             std::vector<std::tuple<std::string, char*, std::size_t>> tl;
             scan<char>(g_storage, "", scan_endpoint::INF, "", scan_endpoint::INF, tl, nullptr, 0);
             std::cout << "FINAL " << tl.size();
-            for (auto& e : tl) std::cout << " " << hex(std::get<0>(e)) << "=" << (std::get<1>(e) == nullptr ? std::string("NULLVALUE") : (vh::ptr_is_heap(std::get<1>(e)) ? hex(std::string_view(std::get<1>(e), std::get<2>(e))) : std::string("inline")));
+            for (auto& e : tl) std::cout << " " << hex(std::get<0>(e)) << "=" << (std::get<1>(e) == nullptr ? std::string("NULLVALUE") : (vh::ptr_is_heap(std::get<1>(e)) ? hex(std::string_view(std::get<1>(e), std::get<2>(e))) : inline_str(std::get<1>(e))));
             std::cout << "\n";
             vh::Walker wk;
             tree_instance* ti{};
